@@ -17,7 +17,7 @@ RULE = (
     "unreachable components, sessions reachable only through non-default ones; every session can return to the default session, as ISO "
     "14229-1 requires and the scanner's stack recovery presupposes), non-edges answered with subFunctionNotSupported or, per variant, "
     "subFunctionNotSupportedInActiveSession / conditionsNotCorrect, selected edges silent (timeout); a second family is the real "
-    "RandomUDSServer for generated seeds/parameters. x depth 1..5 x skip lists (never containing the default session; isolated ids and "
+    "RandomUDSServer for generated seeds/parameters. x depth 1..5 x skip lists (with and without the default session; isolated ids and "
     "adjacent runs) x thorough. The real SessionsScanner.run() is executed in-process over an in-memory transport under virtual time. "
     "Oracle: scanner.result equals the set of sessions s for which a walk 1 -> .. -> s of 1..depth edges exists in the graph without "
     "skipped nodes (BFS); every recorded (destination, steps) is a walk of the graph from the default session ending with an edge into "
@@ -123,7 +123,7 @@ def graph_case(draw) -> dict[str, Any]:
     all_edges = sorted((a, b) for a in edges for b in edges[a] if b != 1)
     silent = draw(st.lists(st.sampled_from(all_edges), unique=True, max_size=2)) if all_edges else []
     skip_pool = [x for x in pool if x != 1]
-    skip_kind = draw(st.sampled_from(["none", "none", "isolated", "run", "run", "nodes"]))
+    skip_kind = draw(st.sampled_from(["none", "none", "isolated", "run", "run", "nodes", "default"]))
     skip_text: list[str] | None = None
     if skip_kind == "none":
         skip: list[int] = []
@@ -135,6 +135,12 @@ def graph_case(draw) -> dict[str, Any]:
         if draw(st.booleans()) and len(skip) >= 3:
             # the same set written as range expressions, one nested inside the other
             skip_text = [f"{skip[0]:#x}-{skip[-1]:#x}", f"{skip[1]:#x}-{skip[-2]:#x}"]
+    elif skip_kind == "default":
+        # the default session itself is on the list: it is not probed as a candidate, but it remains the start of every walk (the
+        # "never requested" clause is not applied to it - every recovery has to go through it)
+        skip = [1] + draw(st.lists(st.sampled_from(skip_pool), unique=True, max_size=2))
+        if draw(st.booleans()):
+            skip_text = ["0x1-0x1"] + [f"{x:#x}" for x in skip[1:]]
     else:
         skip = draw(st.lists(st.sampled_from([x for x in nodes if x != 1] or [2]), unique=True, max_size=2))
     depth = draw(st.sampled_from([1, 2, 2, 3, 3, 4, 5]))
@@ -146,7 +152,9 @@ def graph_case(draw) -> dict[str, Any]:
         depth -= 1
     return {"kind": "graph", "graph": {str(a): sorted(b) for a, b in edges.items()}, "silent": [list(e) for e in silent],
             "nrc_mode": draw(st.sampled_from(["plain", "plain", "inactive", "cnc"])), "depth": depth,
-            "skip": sorted(skip), "thorough": thorough, "skip_text": skip_text}
+            "skip": sorted(skip), "thorough": thorough, "skip_text": skip_text,
+            # the database already holds the session transitions an earlier, deeper scan of this ECU has found
+            "earlier_scan": draw(st.integers(0, 2)) == 0}
 
 
 @st.composite
@@ -221,7 +229,19 @@ def run_case(case: dict[str, Any]) -> dict[str, Any]:
                                 dumpcap=False, timeout=0.5, max_retries=0, properties=False, reset=(case.get("reset") or [None])[0])
     nodes = len(edges)
     budget = (2000 + (case["depth"] + 1) * (nodes ** (case["depth"] if case["thorough"] else 1) + nodes) * 140 * 4) * (4 + case["depth"] if case.get("reset") else 1)
-    r = run_scanner(SessionsScanner, cfg, server, budget=min(budget, 600000))
+    stored = None
+    if case.get("earlier_scan"):
+        stored = {}
+        frontier = [[1]]
+        while frontier:
+            nxt = []
+            for walk in frontier:
+                for b in sorted(edges.get(walk[-1], set())):
+                    if b not in stored and b != 1 and (walk[-1], b) not in silent:
+                        stored[b] = list(walk)
+                        nxt.append(walk + [b])
+            frontier = nxt
+    r = run_scanner(SessionsScanner, cfg, server, budget=min(budget, 600000), db_stored=stored)
     r["edges"] = edges
     r["silent"] = silent
     return r
@@ -253,7 +273,7 @@ def check(case: dict[str, Any]) -> list[tuple[str, str]]:
         out.append((f"C09/wrong-sessions/{kind}/{mode}", f"{ctx}: reported {[hex(x) for x in got]}, reachable within depth: {[hex(x) for x in sorted(exp)]} (missing {[hex(x) for x in missing]}, extra {[hex(x) for x in extra]})"))
     # skipped sessions are never requested
     for cur, pdu in ((s, p) for s, p, _ in r["wire"]):
-        if pdu[0] == 0x10 and len(pdu) == 2 and (pdu[1] & 0x7F) in skip:
+        if pdu[0] == 0x10 and len(pdu) == 2 and (pdu[1] & 0x7F) in skip - {1}:
             out.append(("C09/skipped-session-requested", f"{ctx}: ECU received {pdu.hex()} in session {cur:#x}"))
             break
     # recorded transitions are real walks
@@ -290,7 +310,7 @@ def run_shard(spec: dict[str, Any], seed: int) -> Collector:
 
     def body(case: dict[str, Any]) -> None:
         res = check(case)
-        col.case(str(case), nontrivial(case), cls=f"{case['kind']}/depth{case['depth']}/" + ("thorough" if case["thorough"] else "normal") + ("/skip" if case["skip"] else "")
+        col.case(str(case), nontrivial(case), cls=f"{case['kind']}/depth{case['depth']}/" + ("thorough" if case["thorough"] else "normal") + ("/skip" if case["skip"] else "") + ("/earlier-scan-in-db" if case.get("earlier_scan") else "")
                  + (f"/reset-{case['reset'][1]}" if case.get("reset") else ""),
                  sample=case)
         for b, m in res:
